@@ -43,4 +43,10 @@ def observable (e : Entry) (copy : Option Bool) : Bool Ã— Bool Ã— Bool Ã— Bool Ã
    sums.any (fun s => s.1.contains 0),
    sums.any (fun s => s.1.any fun r => decide (0 < r && r < e.nIn)))
 
+/-- the converters that have to build a new container around the caller's items (a `ContentSequence` keeps a name
+index and cannot be obtained by re-classing a list; `MeasurementReport.from_sequence` is a re-classed
+`ContentSequence.from_sequence`); see `nocopy_returns_same` -/
+def rebuildsContainer (e : Entry) : Bool :=
+  e.name == "ContentSequence.from_sequence" || e.name == "MeasurementReport.from_sequence"
+
 end HdVerif.Aliasing
